@@ -88,13 +88,31 @@ class Unit:
             (kind, f, pos, tag), off = o
             if kind == "repo":
                 src = file_text_cache[f]
-                out.append(dict(kind="repo", file=f, line=src.count("\n", 0, pos + off) + 1))
+                out.append(dict(kind="repo", file=f.replace("@R6", " (after R6 inlining)"), line=src.count("\n", 0, pos + off) + 1))
             elif kind == "edit":
                 src = file_text_cache[f]
-                out.append(dict(kind="edit", file=f, line=src.count("\n", 0, pos) + 1, rule=tag))
+                out.append(dict(kind="edit", file=f.replace("@R6", " (after R6 inlining)"), line=src.count("\n", 0, pos) + 1, rule=tag))
             else:
                 out.append(dict(kind="tmpl", file=f, line=pos + off_lines.get(id(o), 0)))
         self.line_origin = out
+
+
+def _split_top(s):
+    """split at top-level commas (parens/brackets/braces/angle-free heuristic)"""
+    out, depth, cur = [], 0, ""
+    for ch in s:
+        if ch in "([{<":
+            depth += 1
+        elif ch in ")]}>":
+            depth -= 1
+        if ch == "," and depth == 0:
+            out.append(cur)
+            cur = ""
+        else:
+            cur += ch
+    if cur.strip():
+        out.append(cur)
+    return out
 
 
 def _parse_kv(s):
@@ -159,6 +177,7 @@ class Weaver:
         self.cache = {}
         self.tokcache = {}
         self.vacuity = vacuity  # None | "entry"
+        self.vmap = {}
 
     def src(self, f):
         if f not in self.cache:
@@ -264,6 +283,11 @@ class Weaver:
             raise Lost("%s: %s" % (f, ex))
         edits = []   # (start, end, text, tag, prio)
         elog = []
+        # R6 (helper inlining): `HELPER(ARGS.., || BODY)?` is beta-reduced with the helper's CURRENT body from the repo
+        real_f = f
+        for (hd, body, lno) in sections:
+            if hd.split()[0] == "inline":
+                f, src, toks, it = self._inline(real_f, f, src, toks, it, head, hd.split()[1], elog)
         norules = set()
 
         def T(i):
@@ -373,6 +397,8 @@ class Weaver:
             elif k == "at":
                 where = hd[2:].strip()
                 self._anchor(where, body, lno, src, toks, it, loops, add, tmpl_origin, f, head["fn"])
+            elif k == "inline":
+                pass
             elif k == "twin":
                 twins.append(_parse_re_arrow(hd[len("twin"):]))
             elif k in ("replace", "replace?"):
@@ -471,6 +497,74 @@ class Weaver:
         u.functions.append(dict(name=qual, file=f, fn=head["fn"], impl=head.get("impl"),
                                 repo_line=src.count("\n", 0, it.start) + 1, piece_lo=start_piece,
                                 piece_hi=len(u.pieces)))
+
+    def _inline(self, real_f, f, src, toks, it, head, helper, elog):
+        """returns (virtual file key, virtual src, toks, item) with every `helper(A.., || [-> T] { BODY })?` call in the
+        function replaced by the helper's body, its closure parameter call `P()` replaced by `{ BODY }` and its final
+        `Ok(x)` by `x` (the trailing `?` of the call is dropped with it)."""
+        osrc, otoks = self.src(real_f)
+        try:
+            hit = rl.find_fn(osrc, otoks, helper, None)
+        except LookupError as ex:
+            raise Lost("%s: R6 helper %s" % (real_f, ex))
+        hbody = osrc[otoks[hit.body_open].end:otoks[hit.body_close].start]
+        # helper parameters
+        ptxt = osrc[otoks[hit.params_open].end:otoks[hit.params_close].start]
+        pnames = [x.split(":")[0].strip() for x in _split_top(ptxt)]
+        if len(pnames) < 1:
+            raise Lost("R6: helper %s has no parameters" % helper)
+        fparam = pnames[-1]
+        m_tail = re.search(r"Ok\(\s*(\w+)\s*\)\s*$", hbody.rstrip())
+        if not m_tail or not re.search(r"\b%s\(\)" % re.escape(fparam), hbody):
+            raise Lost("R6: helper %s no longer has the shape `.. %s() .. Ok(x)`" % (helper, fparam))
+        fn_s, fn_e = it.start, it.end
+        text = src[fn_s:fn_e]
+        out = []
+        pos = 0
+        n = 0
+        for m in re.finditer(r"\b%s\(" % re.escape(helper), text):
+            # argument list by bracket matching on tokens of the function text
+            ftoks = rl.tokenize(text)
+            k = next(i for i, t in enumerate(ftoks) if t.start == m.end() - 1)
+            c = rl.match_close(ftoks, k)
+            args = rl.split_args(ftoks, k + 1, c)
+            if len(args) != len(pnames):
+                raise Lost("R6: call of %s has %d arguments, helper has %d parameters" % (helper, len(args), len(pnames)))
+            atext = [text[ftoks[a].start:ftoks[b - 1].end].strip() for (a, b) in args]
+            clo = atext[-1]
+            mc = re.match(r"\|\|\s*(->\s*[^{]+)?\{", clo)
+            if not mc:
+                raise Lost("R6: last argument of %s is not a `|| { .. }` closure" % helper)
+            cbody = clo[mc.end() - 1:]
+            end = ftoks[c].end
+            rest = text[end:]
+            q = re.match(r"\s*\?", rest)
+            if not q:
+                raise Lost("R6: call of %s is not followed by `?`" % helper)
+            inl = hbody.rstrip()
+            inl = inl[:m_tail.start()] + m_tail.group(1)
+            inl = re.sub(r"\b%s\(\)" % re.escape(fparam), lambda _m: cbody, inl)
+            for pn, at in zip(pnames[:-1], atext[:-1]):
+                if pn != at:
+                    inl = re.sub(r"\b%s\b" % re.escape(pn), at, inl)
+            out.append(text[pos:m.start()])
+            out.append("{" + inl + "\n}")
+            pos = end + q.end()
+            n += 1
+        if n == 0:
+            raise Lost("%s::%s: R6: no call of %s found" % (real_f, head["fn"], helper))
+        out.append(text[pos:])
+        vtext = src[:fn_s] + "".join(out) + src[fn_e:]
+        vkey = real_f + "@R6"
+        self.cache[vkey] = vtext
+        self.tokcache[vkey] = rl.tokenize(vtext)
+        self.vmap[vkey] = (real_f, osrc.count("\n", 0, hit.start) + 1)
+        elog.append("R6: %d call(s) of `%s(.., || BODY)?` beta-reduced with the helper's current body (repo line %d); line numbers inside this function refer to the inlined text" % (n, helper, osrc.count("\n", 0, hit.start) + 1))
+        try:
+            it2 = rl.find_fn(vtext, self.tokcache[vkey], head["fn"], head.get("impl"), int(head.get("nth", 0)))
+        except LookupError as ex:
+            raise Lost("R6 result unparsable: %s" % ex)
+        return vkey, vtext, self.tokcache[vkey], it2
 
     def _one_section(self, k, w, hd, body, lno, src, toks, it, loops, add, tmpl_origin, f, head, loop_hdr, raw, T):
         """optional (`?`) sections: only `loop ...` contracts and `at ...` hints may be optional"""
